@@ -302,6 +302,10 @@ impl Real {
                     ("memo t_format_string!(number)", Memo::new(move |_| leptos_i18n::t_format_string!(ctx, 1234567.5f64, formatter: number).to_string())),
                     ("memo t_format_display!(list)", Memo::new(move |_| leptos_i18n::t_format_display!(ctx, ["A", "B", "C"], formatter: list(list_type: and)).to_string())),
                     ("memo get_locale hello", Memo::new(move |_| format!("hello-{}", ctx.get_locale().as_str()))),
+                    // the category of 0 is `one` in fr / pt-BR and `other` in en / de
+                    ("memo t_plural!(0)", Memo::new(move |_| (leptos_i18n::t_plural!(ctx, count = || 0, one => "one", _ => "other"))().to_string())),
+                    ("memo t_plural_ordinal!(2)", Memo::new(move |_| (leptos_i18n::t_plural_ordinal!(ctx, count = || 2, two => "two", one => "one", _ => "other"))().to_string())),
+                    ("memo t_format!(number)", Memo::new(move |_| strip(leptos_i18n::t_format!(ctx, move || 1234567.5f64, formatter: number).into_view().to_html()))),
                 ];
                 self.memos.push((c, singles));
                 let sink = std::sync::Arc::new(std::sync::Mutex::new(None));
@@ -321,6 +325,13 @@ impl Real {
 fn expected_text(which: &str, l: usize) -> String {
     let n = NAMES[l];
     // formatters: what the eager, locale-explicit macro gives for the context's current locale
+    if which.contains("t_plural!(0)") {
+        return if l == 1 || l == 4 { "one" } else { "other" }.to_string();
+    }
+    if which.contains("t_plural_ordinal!(2)") {
+        // ordinal 2: `two` in en (2nd), `other` in fr / de / pt
+        return if l == 0 || l == 3 { "two" } else { "other" }.to_string();
+    }
     if which.contains("(number)") {
         return leptos_i18n::td_format_string!(loc(l), 1234567.5f64, formatter: number).to_string();
     }
@@ -512,7 +523,7 @@ pub fn run(tier: Tier) -> i32 {
     rep.sample(json!({"history": format!("{probe:?}"), "snapshots": a}));
     let n_states = states.lock().unwrap().len();
     let mut cov = serde_json::Map::new();
-    cov.insert("rule".into(), json!(format!("every operation history of length <= {depth} over a tree of <= {max_ctx} contexts: set_locale / set_locale_untracked (fr, de) on any context, set through a doubly scoped view, sub-context creation under any context with no / constant / caller-wired initial locale - directly (init_i18n_subcontext_with_options in a child owner) or through the generated <I18nSubContextProvider> component placed in the parent's owner -, set_locale through a handle looked up with use_i18n() in a context's owner after everything created next to it, writes to a wired signal (changing and not changing its value), creation of accessor sets (t! closures with and without arguments and scoping, t_string!, tu_string!, t_display!, the format macros; a Memo + Effect pair, and one Memo per tracked accessor - t_string!, t_display!, t!, the scoped forms, t_format_string!, t_format_display!, get_locale - holding that accessor alone) and `poll` (run effects to quiescence - also absent, so both 'effects have run' and 'not yet' are explored); each history is replayed from scratch on a fresh Owner (stateless search) and after EVERY step every context, a fresh scoped view of it and every accessor made earlier is read; oracle: a map context -> last locale set (own sets and its wired signal only); states = distinct (context locales) snapshots reached")));
+    cov.insert("rule".into(), json!(format!("every operation history of length <= {depth} over a tree of <= {max_ctx} contexts: set_locale / set_locale_untracked (fr, de) on any context, set through a doubly scoped view, sub-context creation under any context with no / constant / caller-wired initial locale - directly (init_i18n_subcontext_with_options in a child owner) or through the generated <I18nSubContextProvider> component placed in the parent's owner -, set_locale through a handle looked up with use_i18n() in a context's owner after everything created next to it, writes to a wired signal (changing and not changing its value), creation of accessor sets (t! closures with and without arguments and scoping, t_string!, tu_string!, t_display!, the format macros; a Memo + Effect pair, and one Memo per tracked accessor - t_string!, t_display!, t!, the scoped forms, t_format_string!, t_format_display!, t_format!, t_plural!, t_plural_ordinal!, get_locale - holding that accessor alone) and `poll` (run effects to quiescence - also absent, so both 'effects have run' and 'not yet' are explored); each history is replayed from scratch on a fresh Owner (stateless search) and after EVERY step every context, a fresh scoped view of it and every accessor made earlier is read; oracle: a map context -> last locale set (own sets and its wired signal only); states = distinct (context locales) snapshots reached")));
     cov.insert("exhaustive".into(), json!(true));
     cov.insert("states".into(), json!(n_states.max(1)));
     cov.insert("depth".into(), json!(depth));
